@@ -435,9 +435,13 @@ pub fn drive_deriv(seed: u64, rounds: usize, sink: &mut Sink) -> usize {
 // ===================================================================== C07 integration
 
 pub fn knot_x(rng: &mut Rng) -> f64 {
-    match rng.below(6) {
+    match rng.below(9) {
         0 => 0.0,
         1 => -0.0,
+        // the thin region between zero and machine epsilon (thresholds like `x.abs() < EPSILON` live here)
+        6 => rng.float_exp(-80, -53),
+        7 => f64::from_bits(1 + rng.below(1 << 52)) * if rng.bool() { 1.0 } else { -1.0 },
+        8 => rng.float_exp(-54, -50),
         2 => rng.nice(),
         3 => rng.float_exp(-30, -5),
         4 => rng.float_exp(3, 12),
